@@ -9,10 +9,11 @@ import (
 
 type world struct{}
 
-func (world) Name() string          { return "bytes" }
-func (world) Props() []string       { return []string{"C07", "C12", "C33"} }
-func (world) Bubble(string) bool    { return false }
-func (world) Level(string) string   { return "exploration" }
+func (world) Name() string        { return "bytes" }
+func (world) Props() []string     { return []string{"C07", "C12", "C33"} }
+func (world) Bubble(string) bool  { return false }
+func (world) Level(string) string { return "exploration" }
+
 func (world) Run(k *kernel.K) {
 	switch k.Prop {
 	case "C12":
@@ -23,11 +24,66 @@ func (world) Run(k *kernel.K) {
 		runTrie(k)
 	}
 }
-func (world) Rule(p string) string { return "" }
-func (world) Components(p string) ([]string, []string) { return nil, nil }
+
+const mutationRule = "Mutants of one valid encoding: truncation at EVERY byte offset; up to 64 tape-chosen bit-flip mutants (1-3 bits each); " +
+	"every compact integer found by a reference walker (up to 12 tape-chosen positions) replaced by each wider non-canonical mode of the same value " +
+	"(2-byte mode for <64, 4-byte mode for <2^14, big-integer mode for <2^30, big-integer mode with leading zero bytes), by other values at the mode " +
+	"boundaries (0,1,63,64,16383,16384,v+-1), by a declared 256 KiB, 2^62 and 2^64-1, each also with only two bytes following; splices of two valid " +
+	"messages; trailing garbage; short random strings. Inputs in which a byte string declares >= 1 MiB are not executed (first-touch cost of this " +
+	"machine; probe not-executed-giant-declaration). "
+
+func (world) Rule(p string) string {
+	switch p {
+	case "C12":
+		return "one run = one tape-chosen artifact: a value of one of 34 catalogue types (every shape pkg/scale supports: fixed ints, compact uint/int, *big.Int, Uint128, bool, " +
+			"[]byte, string, Option, Result, VaryingDataType, arrays, slices, map, nested struct with scale order tags, custom primitives; values concentrated at the " +
+			"compact-mode boundaries) or one of 22 real gossamer artifacts (Header with digests, Body, BlockData, Digest, GRANDPA wire messages through decodeMessage, " +
+			"Justification, Commit/Vote/CatchUp messages, authority lists, voters through Encode/DecodeGrandpaVoters, BABE pre-digest through DecodeBabePreDigest, consensus " +
+			"digests, epoch/config data, equivocation proof, block announce), encoded by the REAL encoder. " + mutationRule +
+			"Oracle per input: Unmarshal fails, or Marshal(value) equals the first len(Marshal(value)) bytes of the input (so a zero-filled truncated input or a non-canonical " +
+			"compact fails); no panic; allocation delta (runtime/metrics, confirmed by ReadMemStats on a repeated decode) <= 64*len+64KiB. A run is non-trivial if at least one " +
+			"mutant was decoded; distinct = artifact type x per-mutation-kind accept/reject counts."
+	case "C33":
+		return "one run = one tape-chosen protocol out of 14 (block announce + handshake, transactions + handshake, block request/response, GRANDPA message + handshake, light " +
+			"request/response, warp-sync request + proof, state request/response); a valid message is built with the real constructors from tape contents and encoded by the " +
+			"real encoder, then corrupted. " + mutationRule + "Protobuf-framed protocols additionally: every length varint (two nesting levels) replaced by 0, len+-1, 0x7f, " +
+			"2^20, 2^32-1, 2^63-1, 2^64-1, an over-long and a non-minimal varint; and well-formed protobufs whose inner SCALE blobs (header, body extrinsics, justification " +
+			"flags, from-block fields) are corrupted with the same schedule. The REAL decoder of the protocol runs on every mutant. Oracle: message or error (never neither); " +
+			"no panic; allocation delta <= 256*len+64KiB; if it decodes, encode(decode(x)) must decode again and re-encode to the same bytes. No wall-time bound is asserted; " +
+			"a decode that does not return within 2 minutes kills the worker (TROUBLE with the input). Non-trivial = at least one mutant executed."
+	case "C07":
+		return "one run = one node encoding: harvested from a real in-memory trie built from tape keys/values (V0 or V1 layout; node.Encode of every node, proof nodes from " +
+			"proof.Generate over the database written by WriteDirty), or a hand-constructed node (leaf/branch, with/without value, inline or hashed value, partial key lengths " +
+			"0,1,14-16,30-32,61-65,269-271,285-287,317-319,572-574 and 65535 in the thorough tier, 0-16 children inline or hashed), or an encoding made by triedb.NewEncodedLeaf/" +
+			"NewEncodedBranch. First the round trip: node.Decode and triedb codec.Decode of the intact encoding must give the same partial key, value or value hash with the " +
+			"hashed flag, and the same children. Then mutants: " + mutationRule + "Also all 255 other header bytes in front of the rest, and crafted partial-key-length headers " +
+			"for all five variants (mask-1, mask, mask+1, mask+254..256, mask+510, 65534, 65535, 257 continuation bytes, continuation bytes to the end). Both decoders run on " +
+			"every mutant. Oracle: node or error; no panic; Read calls <= 16*len+1024; allocation delta <= 64*len+64KiB. Non-trivial = at least one mutant executed."
+	}
+	return ""
+}
+
+func (world) Components(p string) ([]string, []string) {
+	switch p {
+	case "C12":
+		return []string{"pkg/scale Marshal/Unmarshal (encode.go, decode.go, result.go, uint128.go, varying data types)", "dot/types wire types and their helpers (DecodeBabePreDigest, Encode/DecodeGrandpaVoters, Digest, Header, Body, BlockData)",
+				"lib/grandpa message types, decodeMessage, ToConsensusMessage", "dot/network BlockAnnounceMessage"},
+			[]string{"the byte stream (mutation engine)", "reference SCALE walker (used to place crafted prefixes and to name violation classes, not to decide)"}
+	case "C33":
+		return []string{"dot/network decodeBlockAnnounceMessage, decodeBlockAnnounceHandshake, decodeTransactionMessage, decodeTransactionHandshake, decodeSyncMessage, newLightRequestFromBytes, newLightResponseFromBytes, decodeWarpSyncMessage",
+				"dot/network/messages BlockRequestMessage/BlockResponseMessage/StateRequest/StateResponse/WarpProofRequest Encode+Decode", "dot/types NewBodyFromEncodedBytes/NewBodyFromBytes (through the block response)",
+				"lib/grandpa Service.decodeMessage, Service.decodeHandshake, decodeMessage, WarpSyncProof decoding", "pkg/scale", "google.golang.org/protobuf"},
+			[]string{"the transport (libp2p streams): bytes are handed to the decoders directly", "peers (mutation engine)"}
+	case "C07":
+		return []string{"pkg/trie/node Encode, Decode, header/key codecs", "pkg/trie/triedb/codec Decode", "pkg/trie/triedb NewEncodedLeaf/NewEncodedBranch", "pkg/trie/inmemory (Put, WriteDirty) and inmemory/proof.Generate as sources of real encodings", "pkg/scale"},
+			[]string{"the database / the proof sender (mutation engine)", "database (map)"}
+	}
+	return nil, nil
+}
+
 func (world) Budget(p, tier string) (int, time.Duration) {
 	if tier == "thorough" {
-		return 400000, 8 * time.Minute
+		return 600000, 8 * time.Minute
 	}
 	return 40000, 40 * time.Second
 }
